@@ -9,6 +9,7 @@
 import Tranp.Lemmas.Lexer
 import Tranp.Lemmas.LexerShape
 import Tranp.Lemmas.LexerTail
+import Tranp.Lemmas.LexerLead
 import Tranp.Lemmas.LexerTight
 import Tranp.Generated.TokenDef
 import Tranp.Generated.LexerShape
@@ -610,6 +611,58 @@ example :
 
 example : (tokenize pyDef ['x',' ','-','=']).map (List.map simplify) = (tokenize pyDef ['x',' ','-','=','\n']).map (List.map simplify) :=
   layout_tail_by_position pyDef pyDef_layoutReady ['x',' ','-','='] [] ['\n'] (by decide +kernel) (by decide +kernel)
+
+/-! ### the beginning of the source as a layout position -/
+
+/-- **END TO END: white space in front of the first token** — blanks, blank lines, also an indentation of the first line —
+    leaves `Tokenizer.parse` unchanged up to source maps (`post_filter` drops a leading line break, white space tokens are
+    insignificant). -/
+theorem layout_chars_leading_blank (d : TokenDef) (hr : layoutReady d) (w s : Str) (L : List (Nat × Str))
+    (hne : w ≠ []) (hall : ∀ c ∈ w, d.whiteSpace.contains c = true) (hs : headIn d.whiteSpace s = false)
+    (hL : lexS d s = .ok L) :
+    (tokenize d s).map (List.map simplify) = (tokenize d (w ++ s)).map (List.map simplify) :=
+  layout_leading_blank hr w s hne hall hs hL
+
+/-- **END TO END: a comment-only line in front of the first token** (`opener body ⏎ w`) leaves `Tokenizer.parse` unchanged up
+    to source maps. -/
+theorem layout_chars_leading_comment (d : TokenDef) (hr : layoutReady d) (body w s : Str) (p : Str × Str) (L : List (Nat × Str))
+    (hf : firstOpen d.comment (p.1 ++ body ++ ('\n' :: w ++ s)) 0 = .ok p) (hb : '\n' ∉ body)
+    (hall : ∀ c ∈ w, d.whiteSpace.contains c = true) (hs : headIn d.whiteSpace s = false) (hL : lexS d s = .ok L) :
+    (tokenize d s).map (List.map simplify) = (tokenize d (p.1 ++ body ++ ('\n' :: w ++ s))).map (List.map simplify) :=
+  layout_leading_comment hr body w s p hf hb hall hs hL
+
+/-- **The beginning of the source, by position** (checker `leadOK`, driver op `lay.lead`). -/
+theorem layout_lead_by_position (d : TokenDef) (hr : layoutReady d) (pre s : Str) (p : Str × Str) (h : leadOK d pre s p = true) :
+    (tokenize d s).map (List.map simplify) = (tokenize d (pre ++ s)).map (List.map simplify) :=
+  layout_lead_at hr pre s p h
+
+/-- **Closure over all positions**: `LayoutEqAll` = the equivalence generated by the steps between tokens / at line ends
+    (`layout_closure`), the tail (`layout_closure_tail`) and the rewrites in front of the first token. -/
+theorem layout_closure_all (d : TokenDef) (hr : layoutReady d) (s s' : Str) (h : LayoutEqAll d s s') :
+    (tokenize d s).map (List.map simplify) = (tokenize d s').map (List.map simplify) :=
+  h.tokenize hr
+
+/-- non-vacuity (decided in the kernel): a blank line, an indentation, a comment line (also followed by an indentation) in
+    front of `x=1`; refused: a source that itself starts with white space, two lines at once, a comment without its newline -/
+example :
+    let s : Str := ['x','=','1']
+    let c : Str × Str := (['#'], ['\n'])
+    (leadOK pyDef ['\n'] s c && leadOK pyDef [' ',' '] s c && leadOK pyDef ['#',' ','c','\n'] s c &&
+      leadOK pyDef ['#','\n','\t'] s c && !leadOK pyDef ['\n'] (' ' :: s) c && !leadOK pyDef ['#','a','\n','#','b','\n'] s c &&
+      !leadOK pyDef ['#','a'] s c) = true := by
+  decide +kernel
+
+/-- two comment lines and a blank line in front, a final newline behind: four steps of the closure -/
+example : LayoutEqAll pyDef ['x','=','1'] ['#','a','\n','#','b','\n','\n','x','=','1','\n'] := by
+  have h1 : LayoutEqAll pyDef ['x','=','1'] ['\n','x','=','1'] := .lead ['\n'] _ (['#'], ['\n']) (by decide +kernel)
+  have h2 : LayoutEqAll pyDef ['\n','x','=','1'] ['#','b','\n','\n','x','=','1'] := by
+    have := LayoutEqAll.lead (d := pyDef) ['#','b','\n','\n'] ['x','=','1'] (['#'], ['\n']) (by decide +kernel)
+    exact h1.symm.trans this
+  have h3 : LayoutEqAll pyDef ['#','b','\n','\n','x','=','1'] ['#','a','\n','#','b','\n','\n','x','=','1'] :=
+    .lead ['#','a','\n'] _ (['#'], ['\n']) (by decide +kernel)
+  have h4 : LayoutEqAll pyDef ['#','a','\n','#','b','\n','\n','x','=','1'] ['#','a','\n','#','b','\n','\n','x','=','1','\n'] :=
+    .eq (.tail ['#','a','\n','#','b','\n','\n','x','=','1'] [] ['\n'] (by decide +kernel) (by decide +kernel))
+  exact ((h1.trans h2).trans h3).trans h4
 
 /-! ### a comment directly after a token -/
 
